@@ -223,6 +223,7 @@ class Machine:
         self.vfs = {}
         self.timer = None     # modelled ThreadTimer state
         self.stop_countdown = -1
+        self.obs_count = 0
         self.depth = 0
         self.max_depth = 3000
         self._resolve_cache = {}
@@ -450,6 +451,7 @@ class Machine:
         self.inputs = {}
         self.timer = None
         self.stop_countdown = -1
+        self.obs_count = 0
         self.concrete_inputs = concrete_inputs
         if concrete_inputs is not None:
             # concrete re-run: only structural decisions are replayed
@@ -523,7 +525,9 @@ class Machine:
                 return kind[1](self, func, args)
             func = kind[1]
         self.covered[func.name] = self.covered.get(func.name, 0) + 1
-        if func.name == 'time_out::query_stopped' and self.stop_countdown >= 0:
+        is_obs = func.name == 'query_stopped' or func.name.endswith('::query_stopped')
+        if is_obs: self.obs_count += 1
+        if is_obs and self.stop_countdown >= 0:
             # modelled timer thread: it may set the flag between any two observations of it
             if self.stop_countdown == 0:
                 self.stop_countdown = -1
